@@ -10,7 +10,7 @@ EXH = "exhaustive small-world enumeration + Hypothesis-generated cases"
 CHECKS = {
     "C01": (
         EXH + " against a definitional reference model (combinations + order-isomorphism); histories re-using memoised pattern objects",
-        "Every (pattern, permutation) pair below a length bound is enumerated and every entry point compared, as a list, with an independent oracle; above the bound Hypothesis plants occurrences, colours and re-uses memoised pattern objects across targets. Exploration is the right level: the property is universally quantified over an infinite domain; complete small worlds plus generated larger ones reach the off-by-one and memo faults the pruned backtracking search can have.",
+        "Every (pattern, permutation) pair below a length bound is enumerated and every entry point compared, as a list, with an independent oracle; above the bound Hypothesis plants occurrences, colours and re-uses memoised pattern objects across targets, including lazily consumed searches that overlap in time and patterns given in one-shot containers; thorough adds atheris campaigns with the oracle inside the target. Exploration is the right level: the property is universally quantified over an infinite domain; complete small worlds plus generated larger ones reach the off-by-one and memo faults the pruned backtracking search can have.",
         "Trusted: pv/oracle.py. Bounded: exhaustive |p|<=4,|t|<=6 quick (|p|<=5,|t|<=7 thorough); generated up to |p|<=6,|t|<=12.",
         "DESIGN.md 4/C01",
     ),
@@ -22,13 +22,13 @@ CHECKS = {
     ),
     "C03": (
         EXH + " against a cell-counting reference model; bivincular family against adjacency semantics",
-        "All 2^((k+1)^2) shadings of all patterns of length <=2 against all permutations up to the bound, all adjacency-requirement sets up to length 3, every entry point; generated larger patterns and mixed lists. Exploration over complete small worlds is the right level for a property quantified over all shadings.",
+        "All 2^((k+1)^2) shadings of all patterns of length <=2 against all permutations up to the bound, all adjacency-requirement sets up to length 3, every entry point, every container form of shadings and requirements (one-shot iterators included); generated larger patterns, mixed lists and overlapping lazy enumerations with one pattern object. Exploration over complete small worlds is the right level for a property quantified over all shadings.",
         "Trusted: oracle mesh_occ and the adjacency formulation (cross-checked against each other in the self-test). Bounded: |t|<=5 quick / 6 thorough exhaustive; generated |p|<=4,|t|<=8.",
         "DESIGN.md 4/C03",
     ),
     "C04": (
         EXH + "; oracle = the eight affine maps of the square on points and cell centres; metamorphic two-sided equivariance",
-        "Each library symmetry is compared with the geometric map on every permutation up to the bound and on mesh patterns; dihedral relations, all_syms = orbit (closure under reverse/inverse), set helpers, lex_min constant on orbits, CLI output; equivariance of containment under all eight symmetries.",
+        "Each library symmetry is compared with the geometric map on every permutation up to the bound and on mesh patterns; dihedral relations, all_syms = orbit (closure under reverse/inverse), set helpers, lex_min constant on orbits, CLI output; equivariance of containment under all eight symmetries, for fresh pattern objects and for objects whose search table is already memoised.",
         "Trusted: direction conventions fixed by the documented examples (checked in the self-test). Bounded: all perms <=7 quick / 8 thorough; mesh patterns <=1 exhaustive quick, <=2 thorough, generated <=4.",
         "DESIGN.md 4/C04",
     ),
